@@ -471,8 +471,18 @@ impl<'a> Lexer<'a> {
             // we can't properly show the "end of input" span.
             // For now, have the span point at the last byte in the source.
             // See: https://github.com/zkat/miette/issues/219
+            // (the last *character*: the span must stay on character
+            // boundaries and inside the source, which may be empty)
+            let source = self.0.source();
             span.start = span.start.saturating_sub(1);
-            span.end = span.start + 1;
+            while !source.is_char_boundary(span.start) {
+                span.start -= 1;
+            }
+            span.end = span.start
+                + source[span.start..]
+                    .chars()
+                    .next()
+                    .map_or(0, |c| c.len_utf8());
         }
 
         to_source_span(span)
